@@ -6,6 +6,7 @@ package stringutil
 
 /*@
 func ContainsFold
+  loops 1
   loop 0
     invariant safe_state: substrLen == len(substr) && -1 <= i
     decreases len(s) + (i == -1 ? 0 : 1)
@@ -36,6 +37,7 @@ lemma keptBounds(s string, sep string, j int)
   ensures 0 <= keptBefore(s, sep, j) && keptBefore(s, sep, j) <= j
 
 func SplitTrimmed
+  loops 2
   def t = trimSpaceOf(str)
   apply keptZero(t, sep)
   ensures non_nil: !isnil(strs)
